@@ -143,11 +143,40 @@ def propagate_oracle(ctx, case, steps, ctor_err):
         ctx.fail(suites.slim(case), f'annotated description rejected: {st["result"]} {st.get("message", "")[:60]}')
         return
     fine, meta = st['fine_graph'], st['meta_graph']
-    for k, exp in enumerate(case['base_expect']):
-        have = {a: v for a, v in meta.nodes[k].items() if a != 'graph'}
-        for a, v in exp.items():
-            if have.get(a) != v:
-                ctx.fail(suites.slim(case), f'coarse node {k}: {a}={have.get(a)!r}, written {v!r}')
+
+    def check_coarse(meta, how):
+        if case.get('expanded'):
+            # a multiplied anchor+branch is numbered differently from the written-out string: compare as multisets
+            def key(dct):
+                return tuple(sorted((a, repr(v)) for a, v in dct.items() if a != 'graph'))
+            want = sorted(key(e) for e in case['base_expect'])
+            have = sorted(key({a: v for a, v in meta.nodes[k].items() if a != 'graph'}) for k in meta.nodes)
+            if want != have:
+                import collections
+                miss = list((collections.Counter(want) - collections.Counter(have)).elements())[:2]
+                ctx.fail(suites.slim(case), f'{how}: the annotated coarse nodes are not the written ones (expansion written out): '
+                                            f'missing {miss}')
+            return
+        if len(meta) != len(case['base_expect']):
+            ctx.fail(suites.slim(case), f'{how}: {len(meta)} coarse nodes, {len(case["base_expect"])} written')
+            return
+        for k, exp in enumerate(case['base_expect']):
+            have = {a: v for a, v in meta.nodes[k].items() if a != 'graph'}
+            for a, v in exp.items():
+                if have.get(a) != v:
+                    ctx.fail(suites.slim(case), f'{how}: coarse node {k}: {a}={have.get(a)!r}, written {v!r}')
+    check_coarse(meta, 'whole string')
+    # the same base graph handed over as a graph (second constructor): the annotations stay on the returned nodes
+    try:
+        from cgsmiles.read_cgsmiles import read_cgsmiles
+        from cgsmiles.resolve import MoleculeResolver
+        base_str, rest = case['s'].split('}.', 1)
+        with lib.quiet():
+            meta2, _ = MoleculeResolver.from_graph(rest, read_cgsmiles(base_str + '}'),
+                                                   last_all_atom=case.get('all_atom', True)).resolve()
+        check_coarse(meta2, 'base graph + fragment string')
+    except Exception as err:    # noqa: BLE001
+        ctx.fail(suites.slim(case), f'base graph + fragment string constructor rejected the annotated description: {lib.err_class(err)}')
     # every annotated template atom has a copy in every instance of its fragment
     seen = set()
     for n, d in fine.nodes(data=True):
@@ -174,6 +203,7 @@ def anno_resolve_case(rng):
     """a small polymer-like description with annotations on base nodes and on fragment atoms"""
     nunits = rng.randint(1, 4)
     base, base_expect = '', []
+    expanded = False
     for i in range(nunits):
         q = rng.choice([None, '1', '-1', '0.5'])
         w = rng.choice([None, '2', '0.25'])
@@ -194,8 +224,28 @@ def anno_resolve_case(rng):
             entries += kws
         if free:
             entries.append('%s=%s' % free); exp[free[0]] = free[1]
-        base += '[#%s]' % ';'.join(['U'] + entries)
-        base_expect.append(exp)
+        node = '[#%s]' % ';'.join(['U'] + entries)
+        r = rng.random()
+        if r < 0.12:
+            k = rng.randint(2, 3)
+            base += node + '|%d' % k                      # a multiplied node: every copy carries the annotation
+            base_expect += [dict(exp) for _ in range(k)]
+        elif r < 0.27 and i + 1 < nunits:
+            # a multiplied anchor + branch: anchor and branch node are both annotated
+            k = rng.randint(2, 3)
+            inner = rng.choice(['[#U;q=0.25;lab=in%d]' % i, '[#U;w=3]', '[#U]'])
+            iexp = {'fragname': 'U', 'charge': 0.0, 'weight': 1.0}
+            if 'q=0.25' in inner:
+                iexp.update(charge=0.25, lab='in%d' % i)
+            if 'w=3' in inner:
+                iexp.update(weight=3.0)
+            base += node + '(' + inner + ')|%d' % k
+            for _ in range(k):
+                base_expect += [dict(exp), dict(iexp)]
+            expanded = True
+        else:
+            base += node
+            base_expect.append(exp)
     atom_expect = {}
     text = '[$]'
     idx = 0
@@ -229,7 +279,7 @@ def anno_resolve_case(rng):
             idx += 1
     text += '[$]'
     return {'kind': 'anno-resolve', 's': '{' + base + '}.{#U=' + text + '}', 'base_expect': base_expect,
-            'atom_expect': {'U': atom_expect}, 'all_atom': True}
+            'atom_expect': {'U': atom_expect}, 'all_atom': True, 'expanded': expanded}
 
 
 def anno_cg_case(rng):
